@@ -458,3 +458,7 @@ fn encode_decode_cmd() {
     assert!(peers2.is_some());
     assert_eq!(format!("{:?}", peers), format!("{:?}", peers2.unwrap()));
 }
+
+#[cfg(vpncloud_verif)]
+#[path = "/verif/harness/hooks/beacon.rs"]
+pub mod verif;
